@@ -1231,9 +1231,7 @@ impl TensorStore {
                         ScalarValue::Int(i) => CompressedScalar::Int(*i),
                         ScalarValue::Float(f) => CompressedScalar::Float(*f),
                         ScalarValue::String(s) => CompressedScalar::String(s.clone()),
-                        ScalarValue::Bytes(b) => {
-                            CompressedScalar::String(format!("bytes:{}", b.len()))
-                        },
+                        ScalarValue::Bytes(b) => CompressedScalar::Bytes(b.clone()),
                     }),
                     TensorValue::Vector(v) => compress_vector(v, &key, field_name, &config)
                         .map_err(|e| SnapshotError::SerializationError(e.to_string()))?,
@@ -1297,6 +1295,7 @@ impl TensorStore {
                             CompressedScalar::Int(i) => ScalarValue::Int(i),
                             CompressedScalar::Float(f) => ScalarValue::Float(f),
                             CompressedScalar::String(s) => ScalarValue::String(s),
+                            CompressedScalar::Bytes(b) => ScalarValue::Bytes(b),
                         })
                     },
                     CompressedValue::VectorRaw(v) => TensorValue::Vector(v),
@@ -3141,6 +3140,50 @@ mod tests {
         );
 
         std::fs::remove_file(&temp).ok();
+    }
+
+    #[test]
+    fn snapshot_compressed_bytes_roundtrip() {
+        let store = TensorStore::new();
+        let mut data = TensorData::new();
+        data.set("raw", TensorValue::Scalar(ScalarValue::Bytes(vec![1, 2, 3])));
+        data.set("empty", TensorValue::Scalar(ScalarValue::Bytes(Vec::new())));
+        data.set("text", TensorValue::Scalar(ScalarValue::String("bytes:3".into())));
+        store.put("user:1", data.clone()).unwrap();
+
+        let temp = std::env::temp_dir().join("test_compressed_bytes_roundtrip.bin");
+        store
+            .save_snapshot_compressed(&temp, tensor_compress::CompressionConfig::default())
+            .unwrap();
+        let loaded = TensorStore::load_snapshot_compressed(&temp).unwrap();
+        std::fs::remove_file(&temp).ok();
+
+        assert_eq!(loaded.get("user:1").unwrap(), data);
+    }
+
+    #[test]
+    fn snapshot_compressed_reads_pre_bytes_variant_files() {
+        // Written by the code before `CompressedScalar::Bytes` existed.
+        let hex = "4e45554d030000000006010106757365723a31070a7f61626364657076020000600104160d0100f9ffffffffffffff00000000000000f83f0268690178020000800000203f40";
+        let bytes: Vec<u8> = (0..hex.len() / 2)
+            .map(|i| u8::from_str_radix(&hex[2 * i..2 * i + 2], 16).unwrap())
+            .collect();
+        let temp = std::env::temp_dir().join("test_compressed_old_format.bin");
+        std::fs::write(&temp, bytes).unwrap();
+        let loaded = TensorStore::load_snapshot_compressed(&temp).unwrap();
+        std::fs::remove_file(&temp).ok();
+
+        let data = loaded.get("user:1").unwrap();
+        assert_eq!(data.get("a"), Some(&TensorValue::Scalar(ScalarValue::Null)));
+        assert_eq!(data.get("b"), Some(&TensorValue::Scalar(ScalarValue::Bool(true))));
+        assert_eq!(data.get("c"), Some(&TensorValue::Scalar(ScalarValue::Int(-7))));
+        assert_eq!(data.get("d"), Some(&TensorValue::Scalar(ScalarValue::Float(1.5))));
+        assert_eq!(
+            data.get("e"),
+            Some(&TensorValue::Scalar(ScalarValue::String("hi".into())))
+        );
+        assert_eq!(data.get("p"), Some(&TensorValue::Pointer("x".into())));
+        assert_eq!(data.get("v"), Some(&TensorValue::Vector(vec![1.0, 2.5])));
     }
 
     #[test]
